@@ -1276,8 +1276,14 @@ fn check_case(
 		};
 		let mut info = w.case_info();
 		info.class = class.to_string();
+		// a panic is one defect whatever the proof shape: keep its signature free of the shape
+		let sig = if matches!(out, Outcome::Panic(_)) {
+			format!("variant={};event={}", v, dir)
+		} else {
+			format!("variant={};proof={};event={}", v, a.shape.name(), dir)
+		};
 		w.run().violation(
-			&format!("variant={};proof={};event={}", v, a.shape.name(), dir),
+			&sig,
 			&format!(
 				"{} eb={} L={}: reference says valid={} (shape {}), verify() -> {} [{} / {}]",
 				v,
@@ -1378,7 +1384,33 @@ fn for_each_combo(n: u64, k: usize, prefix: &[u64], mut f: impl FnMut(&[u64]) ->
 	}
 }
 
+/// Calls f for every non-decreasing k-tuple over 0..n that has at least one repeated value.
+fn for_each_multiset_with_repeat(n: u64, k: usize, mut f: impl FnMut(&[u64]) -> bool) {
+	let mut c = vec![0u64; k];
+	loop {
+		if c.windows(2).any(|w| w[0] == w[1]) && !f(&c) {
+			return;
+		}
+		let mut i = k;
+		loop {
+			if i == 0 {
+				return;
+			}
+			i -= 1;
+			if c[i] < n - 1 {
+				c[i] += 1;
+				for j in i + 1..k {
+					c[j] = c[i];
+				}
+				break;
+			}
+		}
+	}
+}
+
 struct ExhSpec {
+	/// enumerate the non-decreasing tuples with repeats instead of the strictly ascending ones
+	multisets: bool,
 	variant: Variant,
 	eb: u8,
 	header: Vec<u8>,
@@ -1405,8 +1437,16 @@ fn exhaustive_job(w: &Worker, spec: ExhSpec) {
 		}
 	};
 	ctx.set_header_nonce(spec.header.clone(), None, false).expect("set_header_nonce");
-	let wl = if spec.sample.is_some() { "exh_sampled" } else { "exhaustive" };
-	let class = if spec.sample.is_some() {
+	let wl = if spec.multisets {
+		"exh_multisets"
+	} else if spec.sample.is_some() {
+		"exh_sampled"
+	} else {
+		"exhaustive"
+	};
+	let class = if spec.multisets {
+		"nondecreasing_tuple_with_repeats"
+	} else if spec.sample.is_some() {
 		"random_ascending_tuple"
 	} else {
 		"ascending_tuple"
@@ -1443,8 +1483,13 @@ fn exhaustive_job(w: &Worker, spec: ExhSpec) {
 				Outcome::Reject => "impl_rejects_ref_accepts".to_string(),
 				Outcome::Panic(p) => format!("panic@{}", p.location),
 			};
+			let sig = if oi == 2 {
+				format!("variant={};event={}", v.name(), dir)
+			} else {
+				format!("variant={};proof={};event={}", v.name(), a.shape.name(), dir)
+			};
 			w.run().violation(
-				&format!("variant={};proof={};event={}", v.name(), a.shape.name(), dir),
+				&sig,
 				&format!(
 					"{} eb={} L={}: reference says valid={} (shape {}), verify() -> {} [{}]",
 					v.name(),
@@ -1466,6 +1511,17 @@ fn exhaustive_job(w: &Worker, spec: ExhSpec) {
 		}
 	};
 	match spec.sample {
+		None if spec.multisets => {
+			for_each_multiset_with_repeat(g.num_edges, l, |c| {
+				one(c, &mut st, &mut cycles, &mut some_rejected);
+				n_done += 1;
+				if n_done % 4096 == 0 && w.shared.out_of_time() {
+					truncated = true;
+					return false;
+				}
+				true
+			});
+		}
 		None => {
 			for_each_combo(g.num_edges, l, &spec.prefix, |c| {
 				one(c, &mut st, &mut cycles, &mut some_rejected);
@@ -1526,7 +1582,10 @@ fn exhaustive_job(w: &Worker, spec: ExhSpec) {
 	if truncated {
 		st.bump("exhaustive.jobs_truncated_by_deadline", 1);
 	}
-	if spec.sample.is_none() && spec.prefix.is_empty() && !truncated {
+	if spec.multisets && !truncated {
+		st.bump(&format!("exh_multisets.{}.seeds_complete", vn), 1);
+	}
+	if spec.sample.is_none() && spec.prefix.is_empty() && !truncated && !spec.multisets {
 		st.bump(&format!("exhaustive.{}.eb{}.seeds_complete", vn, spec.eb), 1);
 		if cycles.is_empty() {
 			st.bump(&format!("exhaustive.{}.seeds_without_cycle", vn), 1);
@@ -1648,6 +1707,29 @@ fn exhaustive_scan_job(w: &Worker, variant: Variant, eb: u8, want_with: u64, wan
 		}
 		let ncyc = cyc.len();
 		let n = 1u64 << eb;
+		let n_multi = if w.shared.scale < 0.05 { 0 } else { w.shared.n(3, 24) };
+		if !full_split && eb == 4 && ncyc > 0 && with <= n_multi {
+			let h = header.clone();
+			w.shared.clone().push(
+				Some(variant),
+				format!("multisets {} eb{} seed#{}", variant.name(), eb, i - 1),
+				Box::new(move |w| {
+					exhaustive_job(
+						w,
+						ExhSpec {
+							multisets: true,
+							variant,
+							eb,
+							header: h,
+							prefix: vec![],
+							sample: None,
+							solver_cycles: None,
+							with_mutations: false,
+						},
+					)
+				}),
+			);
+		}
 		if !full_split {
 			let sh = w.shared.clone();
 			let h = header.clone();
@@ -1658,6 +1740,7 @@ fn exhaustive_scan_job(w: &Worker, variant: Variant, eb: u8, want_with: u64, wan
 					exhaustive_job(
 						w,
 						ExhSpec {
+							multisets: false,
 							variant,
 							eb,
 							header: h,
@@ -1689,6 +1772,7 @@ fn exhaustive_scan_job(w: &Worker, variant: Variant, eb: u8, want_with: u64, wan
 							exhaustive_job(
 								w,
 								ExhSpec {
+									multisets: false,
 									variant,
 									eb,
 									header: h,
@@ -1835,6 +1919,7 @@ fn queue_exhaustive(shared: &Arc<Shared>) {
 						exhaustive_job(
 							w,
 							ExhSpec {
+								multisets: false,
 								variant: v,
 								eb,
 								header: seed_header(seed, 0xA500 + v.idx() as u64 * 8 + eb as u64, j),
@@ -1945,7 +2030,8 @@ fn finish(shared: &Arc<Shared>) -> ! {
 	run.set_rule(
 		"Differential against an independent reference (own siphash-2-4 / siphash-block / graph definitions / perfect-matching + union-find decider). \
 		 (a) exhaustive: every ascending 8-tuple of 16-edge graphs (12 870 per header) for header seeds chosen by the reference solver (half with, half without 8-cycles), \
-		 plus all pair swaps / duplicates / out-of-range / wrong-count variants of each accepted cycle and of some rejected tuples; thorough adds every 8-tuple of 32-edge graphs \
+		 plus all pair swaps / duplicates / out-of-range / wrong-count variants of each accepted cycle and of some rejected tuples, \
+		 and every non-decreasing 8-tuple with repeated nonces (477 444 per header) for some of those headers; thorough adds every 8-tuple of 32-edge graphs \
 		 (10 518 300 per header, 3 headers per variant); random ascending tuples of 32- and 64-edge graphs. \
 		 (b) reference solver (DFS over the junction relation) on graphs of 2^8..2^16 edges, proof sizes 8 and 42: honest cycles, repo find_cycles solutions (cuckatoo), \
 		 unions of two/three cycles with exactly L edges (disjoint, sharing one node, sharing a path), cycles of wrong length, open paths, cycles of the underlying \
@@ -1977,6 +2063,11 @@ fn finish(shared: &Arc<Shared>) -> ! {
 				&format!("{}: honest 42-cycles accepted", vn),
 				run.counter(&format!("solver.{}.L42.honest_cycles_accepted", vn)),
 				thr(8),
+			);
+			run.require(
+				&format!("{}: exhaustive non-decreasing 16-edge tuples with repeats", vn),
+				run.counter(&format!("exh_multisets.{}.eb4.tuples", vn)),
+				if shared.scale < 0.05 { 0 } else { thr(477_444 * 2) },
 			);
 			run.require(
 				&format!("{}: exhaustive seeds with 8-cycles", vn),
@@ -2514,7 +2605,7 @@ fn queue_solver(shared: &Arc<Shared>) {
 		let parts: u64 = if eb >= 15 { 4 } else if eb >= 13 { 2 } else { 1 };
 		let total = if l == 42 { shared.n(8, 64) } else { shared.n(12, 96) };
 		let target = (total + parts - 1) / parts;
-		let max_seeds = shared.n(3000, 40_000);
+		let max_seeds = shared.n(3000, 40_000).max(800);
 		let cap = shared.tier.pick(6.0, 50.0);
 		let loose = (shared.n(8, 64) + parts - 1) / parts;
 		for part in 0..parts {
@@ -3022,7 +3113,7 @@ fn queue_selection(shared: &Arc<Shared>) {
 	shared.push(None, "selection vectors".into(), Box::new(selection_vectors_job));
 	let per = shared.n(2, 12);
 	for (chain, ebs, heights) in [
-		(ChainTypes::UserTesting, vec![15u8, 16], vec![0u64, 7]),
+		(ChainTypes::UserTesting, if shared.scale < 0.05 { vec![12u8] } else { vec![12u8, 15, 16] }, vec![0u64, 7]),
 		(ChainTypes::AutomatedTesting, vec![10u8, 12], vec![0u64, 4, 13, 1000]),
 		(ChainTypes::Mainnet, vec![11u8, 12], vec![5u64, 262_079, 262_080, 524_159, 524_160, 786_239, 786_240, 1_048_319, 1_048_320]),
 		(ChainTypes::Testnet, vec![11u8], vec![5u64, 185_039, 185_040, 298_080, 552_959, 552_960, 642_239, 642_240]),
